@@ -84,6 +84,8 @@ def builtin(it, name):
                 return x.n               # a table standing for exactly its rows (aggregation obligations)
             return NRows(x.n, x.pop) if x.n else 0
         if isinstance(x, Vec):
+            if x.exact:
+                return len(x.v)
             return NRows(len(x.v)) if len(x.v) else 0
         if isinstance(x, Opaque):
             return Opaque("len", x.prov)
@@ -880,7 +882,9 @@ def vec_method(it, obj, name, args, kw):
                 out.append(x)
         return Vec(out)
     if name == "unique":
-        return vec_method(it, obj, "drop_duplicates", [], {})
+        out = vec_method(it, obj, "drop_duplicates", [], {})
+        out.exact = obj.exact
+        return out
     if name == "nunique":
         return len(vec_method(it, obj, "drop_duplicates", [], {}).v)
     if name == "any":
